@@ -1,6 +1,6 @@
 (* Proofs about Model/SrcLoc.v (properties C04 and C06). *)
 From ASModel Require Import Base SrcLoc.
-Open Scope N_scope.
+Local Open Scope N_scope.
 
 Lemma utf8_len_pos c : 1 <= utf8_len c.
 Proof. unfold utf8_len. repeat destruct (_ <? _); lia. Qed.
